@@ -32,7 +32,7 @@ struct RunResult {
 
 struct Scenario {
   Sim s; std::vector<Action> actions; std::string prop;
-  std::vector<std::pair<int, std::string>> inject_log; std::set<int> nocookie_injected;
+  std::vector<std::pair<int, std::string>> inject_log; std::map<int, int64_t> last_cookieless;
   bool has_faults = false, has_reconfig = false, has_cancel = false, has_inject = false;
   size_t nlines = 0;
 
@@ -93,9 +93,11 @@ struct Scenario {
       if (kind == "nocookie") {
         // a cookie-less reply is only illegitimate once this server has proven cookie support (an accepted reply carried a valid server cookie),
         // and only the first one is certain to fall inside the regression period
-        bool proven = false; for (auto &kv : s.reqs) if (kv.second.calls > 0) for (uint32_t ser : kv.second.serials) for (auto &p : w.provs) if (p.serial == ser && p.genuine && p.server == tx.server && p.carried_server_cookie) proven = true;
-        if (!proven || nocookie_injected.count(tx.server)) { s.notes.push_back("inject nocookie: support not proven / not the first"); return; }
-        nocookie_injected.insert(tx.server);
+        // ... i.e. the regression timer is not running: no cookie-less reply since the last accepted valid-cookie reply
+        int64_t last_valid = -1; for (auto &kv : s.reqs) if (kv.second.calls > 0) for (uint32_t ser : kv.second.serials) for (auto &p : w.provs) if (p.serial == ser && p.genuine && p.server == tx.server && p.carried_server_cookie) last_valid = std::max(last_valid, kv.second.t_end);
+        auto lc = last_cookieless.find(tx.server);
+        if (last_valid < 0 || (lc != last_cookieless.end() && lc->second >= last_valid)) { s.notes.push_back("inject nocookie: support not proven or regression timer may be running"); return; }
+        last_cookieless[tx.server] = w.now_us;
       } }
     else return;
     if (!target || !target->open) { s.notes.push_back("inject: target socket closed"); return; }
@@ -213,6 +215,7 @@ struct Scenario {
           const Tx *last = nullptr; for (auto &t : w.txs) if (t.req == q.id && t.seq < q.tx_at_end) last = &t;
           if (last && (!last->has_cookie || last->tcp)) { r.counters["c05.cookie_forgery_moot"]++; continue; }
         }
+        if (!p.genuine && (p.forgery == "wrongsock" || p.forgery == "late") && p.on_current_conn == 1) { r.counters["c05.on_current_connection_moot"]++; continue; }   // arrived on the connection the query was assigned to at that moment: indistinguishable
         if (!p.genuine && p.forgery == "wrongsock") {
           // the simulator only knows where the request was last transmitted, not where it is queued: if the request was (also) written on the
           // target socket before it completed, the packet arrived on its current connection from that server's address and is indistinguishable
